@@ -4,7 +4,7 @@
    The monitor never blocks: a failing event is recorded in `bad` and validation continues.
    log2 bounds that the enclosure cannot separate from the true logarithm are counted in `und`
    (accepted, reported in the verdict). *)
-EXTENDS NumTheoryDef, Json, IOUtils
+EXTENDS NumTheoryDef, Log2Fp8, Json, IOUtils
 Rec == ndJsonDeserialize(IOEnv.TRACE)
 
 Has(r, f) == f \in DOMAIN r
@@ -120,6 +120,17 @@ PGcdWhy(n, m, outs, ext) ==
                  ELSE IF o.out.v.g # g0 THEN "prim-ext-gcd-wrong"
                  ELSE IF IEq(IAdd(IMul(IFromNative(o.out.v.s), IFromNative(n)), IMul(IFromNative(o.out.v.t), IFromNative(m))),
                              IFromNative(g0)) THEN "" ELSE "prim-bezout-identity-fails")
+\* DRIFT (not a verdict): the no_std outputs of the u16 form differ from the transcribed estimator
+HasForm(o, f) == \E i \in 1..Len(o.forms) : o.forms[i] = f
+Log2Drift(e) ==
+  IF e.build # "nostd" \/ e.n \in {0, 3} THEN 0
+  ELSE LET fr == WrapperFraction(e.n)
+           Q1(num) == Q(IFromNative(num), FromNat(fr[3]))
+       IN IF \A i \in 1..Len(e.log2) :
+               LET o == e.log2[i] IN
+               HasForm(o, "u16") => (o.out.k = "ok" /\ QEq(FloatQ(DecodeF32(o.out.v.lb)), Q1(fr[1]))
+                                                   /\ QEq(FloatQ(DecodeF32(o.out.v.ub)), Q1(fr[2])))
+          THEN 0 ELSE 1
 PrimEv(e) ==
   LET n == e.n
       arg == [cls |-> IF n = 0 THEN "zero" ELSE "fin", N |-> FromNat(n), D |-> One]
@@ -135,32 +146,32 @@ PrimEv(e) ==
                     w7 == FirstBad(e.gcd, LAMBDA r : PGcdWhy(n, r.m, r.outs, r.ext))
                 IN IF w1 # "" THEN w1 ELSE IF w2 # "" THEN w2 ELSE IF w3 # "" THEN w3 ELSE IF w4 # "" THEN w4
                    ELSE IF w5 # "" THEN w5 ELSE IF w6 # "" THEN w6 ELSE w7
-  IN <<IF w # "" THEN w ELSE Pre("log2:", lg[1]), lg[2], lg[3]>>
+  IN <<IF w # "" THEN w ELSE Pre("log2:", lg[1]), lg[2], lg[3], Log2Drift(e)>>
 
 \* ------------------------------------------------------------------ dispatch
 Ev(e) ==
-  CASE e.op = "gcd" -> <<GcdEv(e), 0, 0>>
-    [] e.op = "root" -> <<RootEv(e), 0, 0>>
-    [] e.op = "ilog" -> <<IlogEv(e), 0, 0>>
-    [] e.op = "remove" -> <<RemoveEv(e), 0, 0>>
-    [] e.op = "log2" -> Log2Ev(e)
+  CASE e.op = "gcd" -> <<GcdEv(e), 0, 0, 0>>
+    [] e.op = "root" -> <<RootEv(e), 0, 0, 0>>
+    [] e.op = "ilog" -> <<IlogEv(e), 0, 0, 0>>
+    [] e.op = "remove" -> <<RemoveEv(e), 0, 0, 0>>
+    [] e.op = "log2" -> LET r == Log2Ev(e) IN <<r[1], r[2], r[3], 0>>
     [] e.op = "prim" -> PrimEv(e)
-    [] OTHER -> <<"unknown-op", 0, 0>>
+    [] OTHER -> <<"unknown-op", 0, 0, 0>>
 
 (* TLC does not cache a LET bound at the level of an action (every reference re-evaluates it), it
    does inside an expression: the whole accounting step is therefore one expression. *)
 Account(st, i) ==
   LET r == Ev(Rec[i]) IN
   [bad |-> IF r[1] = "" THEN st.bad ELSE Append(st.bad, [i |-> i, why |-> r[1]]),
-   und |-> st.und + r[2], chk |-> st.chk + r[3]]
+   und |-> st.und + r[2], chk |-> st.chk + r[3], drift |-> st.drift + r[4]]
 
 VARIABLES l, st
-Init == l = 1 /\ st = [bad |-> <<>>, und |-> 0, chk |-> 0]
+Init == l = 1 /\ st = [bad |-> <<>>, und |-> 0, chk |-> 0, drift |-> 0]
 Next == /\ l <= Len(Rec)
         /\ st' = Account(st, l)
         /\ l' = l + 1
 Spec == Init /\ [][Next]_<<l, st>>
-Verdict == l > Len(Rec) => PrintT(<<"VERDICT", ToJson([total |-> Len(Rec), bad |-> st.bad, undecided |-> st.und, log2bounds |-> st.chk])>>)
+Verdict == l > Len(Rec) => PrintT(<<"VERDICT", ToJson([total |-> Len(Rec), bad |-> st.bad, undecided |-> st.und, log2bounds |-> st.chk, drift |-> st.drift])>>)
 Complete == IF TLCGet("stats").diameter - 1 = Len(Rec) THEN TRUE
             ELSE PrintT(<<"TRUNCATED", TLCGet("stats").diameter>>) /\ FALSE
 =============================================================================
